@@ -114,4 +114,20 @@ var props = []propCfg{
 		LevelNote: "Trusted: go build, gofmt, byte comparison. The check says nothing about trees other than the one it is run on.",
 		DesignRef: "DESIGN.md section 4, C04",
 	},
+	{
+		ID: "C08", Pkg: "props/c08", Needs: []string{"fc"},
+		Tests: []testCfg{
+			{Name: "TestChainsExhaustive", ShardsQ: 16, ShardsT: 16},
+			{Name: "TestChainsSampled", Rapid: true, Quick: 6400, Thorough: 160000, ShardsQ: 16, ShardsT: 16},
+		},
+		Rule:      "exhaustive part: every sequence of 1..4 operators over the 12 non-pipe operators between distinct un-annotated variables (22,620 chains, 150 functions per fc run; a function whose emitted grouping differs is re-decided alone). Sampled part (rapid): chains of 1..5 operators whose operands are variables, applications `g v`, parenthesised sub-chains (nesting <= 2, optionally with redundant parentheses) and `not`-prefixed operands, with `|>` at any position and a line break before any operator. The operator tree of the emitted Go return expression (go/parser; frt.OpEqual/OpNotEqual/OpNot/Pipe mapped back to = <> not |>) must equal the tree a reference parser builds from the token chain by 'split at the rightmost operator of the lowest rank' over the published table. Non-trivial = >= 2 operators of >= 2 different ranks, or equal ranks across a line break; distinct = hash of the source text.",
+		Technique: "exhaustive enumeration + property-based testing (rapid) against a reference parser built from the published operator table",
+		Assumptions: []string{
+			"variables are un-annotated, so fc's structural unification accepts every chain; if fc rejects a chain that is ill-typed under ordinary typing the chain is skipped and counted (0 on the pinned tree), a rejected well-typed chain is a violation",
+			"grouping is read from the Go text with go/parser, i.e. it is the grouping the Go compiler will see",
+		},
+		LevelText: "The finite domain the property names (all chains of up to 4 of the 12 non-pipe operators) is enumerated completely on every run and decided against an independently written reference parser; applications, parentheses, not, pipes and line breaks are explored by generated chains beyond that. Exhaustive within the bound, exploration beyond it.",
+		LevelNote: "Trusted: go/parser, the reference parser (40 lines, different algorithm from fc's precedence climbing), the published table as transcribed from the property statement.",
+		DesignRef: "DESIGN.md section 4, C08",
+	},
 }
